@@ -223,13 +223,22 @@ func setup() {
 	must(err)
 	kpemE, err := gx.WritePrivateKeyToPem(priv, []byte("pw"))
 	must(err)
-	add("ReadPrivateKeyFromPem", false, [][]byte{kpem}, func(b []byte) { gx.ReadPrivateKeyFromPem(b, nil) })
-	add("ReadPrivateKeyFromPem(pwd)", false, [][]byte{kpemE}, func(b []byte) { gx.ReadPrivateKeyFromPem(b, []byte("pw")) })
 	ppem, err := gx.WritePublicKeyToPem(pub)
 	must(err)
-	add("ReadPublicKeyFromPem", false, [][]byte{ppem}, func(b []byte) { gx.ReadPublicKeyFromPem(b) })
-	add("ReadCertificateFromPem", false, [][]byte{pemOf("CERTIFICATE", certDER)}, func(b []byte) { gx.ReadCertificateFromPem(b) })
-	add("ReadCertificateRequestFromPem", false, [][]byte{pemOf("CERTIFICATE REQUEST", csr)}, func(b []byte) { gx.ReadCertificateRequestFromPem(b) })
+	// PEM files as they occur: several blocks in one file (certificate and key, parameters before the key, a chain), text
+	// around the blocks, the block the reader wants not in first place
+	certPEM0, csrPEM0 := pemOf("CERTIFICATE", certDER), pemOf("CERTIFICATE REQUEST", csr)
+	params := pemOf("EC PARAMETERS", []byte{0x06, 0x08, 0x2a, 0x81, 0x1c, 0xcf, 0x55, 0x01, 0x82, 0x2d})
+	cat := func(parts ...[]byte) []byte { return bytes.Join(parts, nil) }
+	multi := func(own []byte) [][]byte {
+		return [][]byte{own, cat(certPEM0, own), cat(params, own), cat(own, certPEM0), cat([]byte("Bag Attributes\n  friendlyName: x\n"), own, []byte("trailing text\n")),
+			cat(ppem, own, csrPEM0), cat(own, own)}
+	}
+	add("ReadPrivateKeyFromPem", false, multi(kpem), func(b []byte) { gx.ReadPrivateKeyFromPem(b, nil) })
+	add("ReadPrivateKeyFromPem(pwd)", false, multi(kpemE), func(b []byte) { gx.ReadPrivateKeyFromPem(b, []byte("pw")) })
+	add("ReadPublicKeyFromPem", false, multi(ppem), func(b []byte) { gx.ReadPublicKeyFromPem(b) })
+	add("ReadCertificateFromPem", false, multi(certPEM0), func(b []byte) { gx.ReadCertificateFromPem(b) })
+	add("ReadCertificateRequestFromPem", false, multi(csrPEM0), func(b []byte) { gx.ReadCertificateRequestFromPem(b) })
 	add("ReadPrivateKeyFromHex", false, [][]byte{[]byte(gx.WritePrivateKeyToHex(priv))}, func(b []byte) { gx.ReadPrivateKeyFromHex(string(b)) })
 	add("ReadPublicKeyFromHex", false, [][]byte{[]byte(gx.WritePublicKeyToHex(pub))}, func(b []byte) { gx.ReadPublicKeyFromHex(string(b)) })
 	add("AppendCertsFromPEM", false, [][]byte{append(pemOf("CERTIFICATE", certDER), pemOf("CERTIFICATE", p.SM2Root.DER)...)}, func(b []byte) { gx.NewCertPool().AppendCertsFromPEM(b) })
@@ -505,9 +514,12 @@ func TestC18_VectorLengths(t *testing.T) {
 		if hx.Shards() > 1 && i%hx.Shards() != hx.Shard() {
 			continue
 		}
-		for _, seed := range d.seeds {
+		for si, seed := range d.seeds {
 			if len(seed) > 2048 || len(seed) < 2 {
 				continue
+			}
+			if si > 0 && bytes.Contains(seed, []byte("-----BEGIN")) {
+				continue // binary length fields mean nothing inside PEM text: the first (single-block) seed stands for the reader
 			}
 			for w := 1; w <= 3 && w <= len(seed); w++ {
 				for pos := 0; pos+w <= len(seed); pos++ {
